@@ -170,6 +170,16 @@ def run_sessions(shard, ctx):
 
         class Dev(harness.Recorder):
             def execute(self, cmd, en_raw_sense=False):
+                if nested[1]:
+                    return  # the wrapper's own probe: answered, not counted
+                if nested[0] and not nested[1]:
+                    # a device wrapper that checks the unit before every command -- through the facade it serves
+                    nested[1] = True
+                    try:
+                        probe = s.inquiry() if len(calls) % 2 else s.testunitready()
+                        probes.append(probe)
+                    finally:
+                        nested[1] = False
                 calls.append(cmd)
                 if len(calls) in fail_at:
                     raise InjectedFault("device failure %d" % len(calls))
@@ -180,6 +190,10 @@ def run_sessions(shard, ctx):
                     cmd.datain[:n_fill] = tag[:n_fill]
 
         c_fill = [False]
+        nested = [rng.random() < 0.3, False]
+        probes = []
+        if nested[0]:
+            ctx.count("sessions_with_a_probing_device_wrapper")
         kept = []  # (returned command, its data-in content when it was returned)
         dev = Dev(getattr(E, setname))
         s = harness.make_facade(dev, 512)
@@ -215,6 +229,9 @@ def run_sessions(shard, ctx):
                 kept.append((ret, bytes(ret.datain)))
             sent = len(calls) - before
             ctx.count("session_calls")
+            if nested[0] and ret is not None and sent == 1 and ret is not calls[-1]:
+                ctx.fail("C13:session.returned_another_command", "%s returned %s, the command it sent is %s (the device wrapper issued a probe of its own through the same facade meanwhile)"
+                         % (c.facade, type(ret).__name__, type(calls[-1]).__name__), wit)
             if sent != 1:
                 ctx.fail("C13:session.execute_count_%d" % min(sent, 3), "call %d (%s) of a long-lived facade reached the device %d times" % (i, c.facade, sent), wit)
                 continue
@@ -888,6 +905,8 @@ def _run_transport(shard, ctx, rng, sg, isc, skew):
                         continue
                     setname = rng.choice(c.sets)
                     dev.opcodes = getattr(E, setname)
+                    # the device type an attach stored (any of the 32): what reaches the binding does not depend on it
+                    dev.devicetype = {"sbc": rng.choice([0, 4, 7, 0x0E]), "ssc": 1, "mmc": 5, "smc": 8}.get(setname, rng.randrange(32)) if rng.random() < 0.8 else rng.randrange(32)
                     a = dict(required_args(c, rng))
                     replugged = False
                     if t == "sgio" and rng.random() < 0.4:
